@@ -5,18 +5,47 @@ from . import tygen
 TRUSTED = [
     "Lean 4.33 kernel; axioms: propext, Quot.sound at most (see coverage.axioms_used)",
     "hand-written Lean model LlirModel/Types.lean of ir/types/types.go (Equal, String) in the universe 'names unique, only structs named' (identified struct = leaf)",
-    "injectivity of the type printer (StrInj) is an explicit HYPOTHESIS of equal_iff_eq; it is validated on the implementation by the ty.inj oracle, not proved",
+    "hand-written Lean reader LlirModel/TyParse.lean of printed types: injectivity of the printer (on which PointerType.Equal relies) and the print->parse round trip are THEOREMS about it; "
+    "it is compared with the real parser on printed types and on single-character structural mutants (ty.parse)",
     "enc.TypeName model (C11); fmt %d = decimal rendering",
     "Go harness ops_types.go (descriptor parser builds real types; named types are real self-referential struct objects)",
 ]
 ASSUMPTIONS = ["type names are unique and only struct types are named (the property's universe)"]
 RULE = ("ops = Equal / String on generated type pairs (random nesting depth <= 4 plus structurally-close mutants: width, scalability, packedness, variadicity, address space, "
-        "length), law oracles on triples, injectivity oracles on pairs, print->parse oracles; thorough adds all ordered pairs of a depth<=2 universe; non-trivial = "
+        "length), law oracles on triples, injectivity oracles on pairs, print->parse oracles, reader-vs-parser stream on printed and mutated type texts; thorough adds all ordered pairs of a depth<=2 universe; non-trivial = "
         "distinct op with at least one composite type")
 
 
-def gen(tier, rng, harness=None):
+def parse_stream(tier, rng, driver):
+    """texts of printed types (from the model's printer), as such and with one structural character deleted or replaced:
+    the model's reader (TyParse.parse, proved to invert the printer) and the real parser must agree on accept/reject and on the type read"""
+    from .gens import hx
+    n = 300 if tier == "quick" else 20000
+    descs = [tygen.gen_ty(rng, rng.randint(0, 4)) for _ in range(n)]
+    descs = [d for d in descs if d != "v"]
+    outs = C.run_lines([driver], ["ty.string %s" % d for d in descs], shards=8)
     lines = []
+    for d, o in zip(descs, outs):
+        if o in ("unknown-op", "-") or not o:
+            continue
+        text = bytes.fromhex(o)
+        if d.startswith("F(") or d.startswith("G("):
+            text += b"*"          # a function type is not a parameter type; its pointer is
+        lines.append("ty.parse %s" % hx(text))
+        if rng.random() < 0.5:
+            # outside quoted names only (a quoted name may contain anything)
+            # (an `x` only where it is the separator ` x `: the lexer of llir/ll SKIPS unknown words such as y86_fp80, which is
+            # outside llir/llvm and not what this stream is about)
+            pos = [i for i, c in enumerate(text) if (c in b"<>[]{}()" or text[i - 1:i + 2] == b" x ") and text[:i].count(b'"') % 2 == 0]
+            if pos:
+                i = rng.choice(pos)
+                mut = text[:i] + (b"y" if text[i:i + 1] == b"x" else b"") + text[i + 1:]
+                lines.append("ty.parse %s" % hx(mut))
+    return lines
+
+
+def gen(tier, rng, harness=None, driver=None):
+    lines = parse_stream(tier, rng, driver)
     if tier == "thorough":
         U = tygen.small_universe() + ["s(i32,p0(n61))", "P(i32,p0(n61))", "s(i32,p0(n62))"]
         for a in U:
@@ -56,6 +85,8 @@ def nontrivial(ln, model_out):
 
 def search(ln, a, b, harness, driver):
     p = ln.split()
+    if p[0] == "ty.parse":
+        return None
     args = p[1:]
     cands = []
     for x in args:
